@@ -307,7 +307,7 @@ func (w *World) selectAll(t string) (rows []*storage.Row, fields []*storage.Fiel
 func (w *World) observe() (map[string][]RowOut, []string) {
 	out := map[string][]RowOut{}
 	var probs []string
-	for _, t := range []string{"t1", "t2", "t3", "T1"} {
+	for _, t := range []string{"t1", "t2", "t3", "T1", "t10"} {
 		rows, fields, err := w.selectAll(t)
 		if err != nil {
 			if errors.Is(err, storage.ErrTableNotExist) {
@@ -1019,8 +1019,8 @@ func (w *World) graph() (*Graph, []string) {
 	h, pages := storage.VerifDumpView(rs)
 	g := &Graph{Pages: pages, Roots: []int{h.PtRoot}, Names: []string{"sys_pages"}}
 	var probs []string
-	roots := storage.VerifRoots(rs, []string{"sys_schema", "t1", "t2", "t3", "T1"})
-	for _, n := range []string{"sys_schema", "t1", "t2", "t3", "T1"} {
+	roots := storage.VerifRoots(rs, []string{"sys_schema", "t1", "t2", "t3", "T1", "t10"})
+	for _, n := range []string{"sys_schema", "t1", "t2", "t3", "T1", "t10"} {
 		r, ok := roots[n]
 		if !ok {
 			continue
@@ -1516,7 +1516,13 @@ func randomRun(rq RandReq) (res Result) {
 		if rq.Bias == "grow" {
 			tIns, tUpd, tDel = 76, 83, 88 // mostly inserts, but every kind of statement still occurs
 		}
-		if rq.LongBad > 0 && i == rq.N/2 && len(tables) == 2 {
+		if i == rq.N/3 && len(queue) == 0 {
+			// a table whose name begins with the name of another one (t1 / t10): names are compared whole
+			queue = append(queue, Step{A: "create", T: "t10"}, Step{A: "insert", T: "t10", Rows: []int{val(), val()}}, Step{A: "insert", T: "t1", Rows: []int{val()}})
+			tables = append(tables, "t10")
+			res.Stats["prefix-named-tables"]++
+		}
+		if rq.LongBad > 0 && i == rq.N/2 && len(tables) <= 3 && tables[len(tables)-1] != "t3" {
 			// a table created late: every row of it is younger than every row of the other tables at that moment. Its first
 			// row has a NULL INT column, the others do not; a statement on an old table, then the UPDATE that only the later
 			// rows of the young table refuse
